@@ -13,12 +13,23 @@ Theorem clone_preserved_core fuel m s m' s' :
   clone fuel m s = Ok (m', s') ->
   (fresh_ok m' /\ wf_reg m' (s_types s') /\
    forall n o, In (n, o) (s_types s') -> is_builtin o = false -> exists t, In (n, t) (s_types s) /\ is_builtin t = false) /\
-  forall n t, In (n, t) (s_types s) -> is_builtin t = false ->
-    exists t', alookup n (s_types s') = Some t' /\ type_cloned m' n t t' /\ type_linked (s_types s') m' t t'.
+  (forall n t, In (n, t) (s_types s) -> is_builtin t = false ->
+    exists t', alookup n (s_types s') = Some t' /\ type_cloned m' n t t' /\ type_linked (s_types s') m' t t' /\
+      forall k d ms ifs r ds, mget m t = Some (OType n k d ms ifs r ds) -> IK (s_types s') m' t' ifs) /\
+  (forall n d, In (n, d) (s_dirs s) ->
+    exists d', alookup n (s_dirs s') = Some d' /\ dir_cloned (s_types s') m' d d') /\
+  ((exists n o, In (n, o) (s_types s) /\ is_builtin o = false) ->
+   closed m' s' /\
+   (forall s0, build fuel m (s_query s) (s_mut s) (s_sub s) (map snd (s_dirs s)) (map snd (s_types s)) = Ok s0 ->
+      map fst (s_types s') = map fst (s_types s0)) /\
+   map fst (s_dirs s') = map fst (s_dirs s) /\
+   s_query s' = reroot m (s_types s') (s_query s) /\ s_mut s' = reroot m (s_types s') (s_mut s) /\
+   s_sub s' = reroot m (s_types s') (s_sub s) /\
+   s_impls s' = fold_left (impls_of_type m') (s_types s') [] /\ s_poss s' = []).
 Proof.
   intros Hf Hb Hcl Hwf Hbi H.
-  destruct (clone_preserved _ _ _ _ _ Hf Hb Hcl Hwf Hbi H) as ((A & B & C & _) & D).
-  split; [split; [exact A|split; [exact B|exact C]]|exact D].
+  destruct (clone_preserved _ _ _ _ _ Hf Hb Hcl Hwf Hbi H) as ((A & B & C & _) & D & E & F).
+  split; [split; [exact A|split; [exact B|exact C]]|split; [exact D|split; [exact E|exact F]]].
 Qed.
 
 Lemma Forall2_and {A B} (P Q : A -> B -> Prop) l l' :
@@ -61,13 +72,13 @@ Lemma clone_tfull fuel m s m1 c :
 Proof.
   intros Hf Hb Hcl Hwf Hbi H.
   destruct (clone_owned _ _ _ _ _ Hf Hb Hcl Hwf Hbi H) as (Fown & _).
-  destruct (clone_preserved _ _ _ _ _ Hf Hb Hcl Hwf Hbi H) as ((Hf1 & Hwf1 & Hback & _) & Hfw).
+  destruct (clone_preserved _ _ _ _ _ Hf Hb Hcl Hwf Hbi H) as ((Hf1 & Hwf1 & Hback & _) & Hfw & _ & _).
   assert (Hex : forall x v, mget m x = Some v -> mget m1 x = Some v).
   { intros x v Hx. rewrite (fr_frame _ _ _ Fown); [exact Hx|].
     destruct (N.lt_ge_cases x (m_next m)) as [Hlt|Hge]; [assumption|]. rewrite (Hf x Hge) in Hx. discriminate. }
   split; [assumption|]. split; [intros n b Hnb; apply Hex; apply Hb; exact Hnb|]. split; [assumption|].
   intros n o Hin Hbo. destruct (Hback n o Hin Hbo) as (t & Ht & Hbt). exists t. split; [assumption|]. split; [assumption|].
-  destruct (Hfw n t Ht Hbt) as (t' & Hl & Hc & Hlk).
+  destruct (Hfw n t Ht Hbt) as (t' & Hl & Hc & Hlk & _).
   assert (o = t').
   { pose proof (nodup_lookup _ _ _ (proj1 Hwf1) Hin) as Hl2. congruence. }
   subst t'. destruct Hc as (k & d & ms & ifs & r & ds & ms' & ifs' & Hgt & Hgo & Hm).
